@@ -1527,7 +1527,17 @@ umod_2exp_signed_int(Type& to, const Type x, unsigned int exp,
     to = x;
   }
   else {
-    to = x & ((Type(1) << exp) - 1);
+    // Build the mask in the unsigned counterpart of Type (for
+    // exp == n-1 the signed `(Type(1) << exp) - 1' overflows) and check
+    // the result: 2^(n-1) - 1 may lie beyond the policy's finite range.
+    typedef typename C_Integer<Type>::other_type UType;
+    const UType mask = static_cast<UType>((UType(1) << exp) - 1);
+    const Type v = static_cast<Type>(static_cast<UType>(x) & mask);
+    if (CHECK_P(To_Policy::check_overflow,
+                PPL_GT_SILENT(v, (Extended_Int<To_Policy, Type>::max)))) {
+      return set_pos_overflow_int<To_Policy>(to, dir);
+    }
+    to = v;
   }
   return V_EQ;
 }
